@@ -36,8 +36,8 @@ Lemma attach_contig d st h t : contig h (x_input_q (fst (attach d st))) t <-> co
 Proof.
   unfold attach.
   destruct (can_attach_assert st d && (d_off d <=? x_tail_offs st));
-    destruct (d_off d =? x_tail_offs st); simpl; autorewrite with xs; try tauto;
-    destruct (find_blk (d_off d) (x_input_q st)); simpl; autorewrite with xs; try tauto;
+    destruct (d_off d =? x_tail_offs st); simpl; xs; try tauto;
+    destruct (find_blk (d_off d) (x_input_q st)); simpl; xs; try tauto;
     apply contig_upd_ref.
 Qed.
 
@@ -49,12 +49,12 @@ Proof.
   intros Hc Hl Hu Hb. unfold attach, can_attach_assert.
   replace ((x_head_offs st <=? d_off d) && (d_off d <=? x_tail_offs st)) with true by lia.
   destruct (d_off d =? x_tail_offs st) eqn:E; simpl; auto.
-  destruct (find_blk_contig (d_off d) _ _ _ Hc Hl) as [b ->]; [lia|]. simpl. autorewrite with xs. auto.
+  destruct (find_blk_contig (d_off d) _ _ _ Hc Hl) as [b ->]; [lia|]. simpl. xs. auto.
 Qed.
 
 Lemma detach_contig att st h t : contig h (x_input_q (detach att st)) t <-> contig h (x_input_q st) t.
 Proof.
-  unfold detach. destruct att; [|tauto]. destruct (has_blk n (x_input_q st)); autorewrite with xs; [|tauto].
+  unfold detach. destruct att; [|tauto]. destruct (has_blk n (x_input_q st)); xs; [|tauto].
   apply contig_upd_ref.
 Qed.
 
@@ -73,10 +73,10 @@ Qed.
 
 Lemma adv_input_head lim st :
   x_head_offs (adv_input lim st) = x_head_offs st + sum_sizes (fst (pop_input lim (x_input_q st))).
-Proof. unfold adv_input. autorewrite with xf xs. reflexivity. Qed.
+Proof. unfold adv_input. xs; autorewrite with xf; xs. reflexivity. Qed.
 
 Lemma adv_input_q lim st : x_input_q (adv_input lim st) = snd (pop_input lim (x_input_q st)).
-Proof. unfold adv_input. autorewrite with xf xs. reflexivity. Qed.
+Proof. unfold adv_input. xs; autorewrite with xf; xs. reflexivity. Qed.
 
 Lemma adv_input_spec lim st :
   contig (x_head_offs st) (x_input_q st) (x_tail_offs st) ->
